@@ -144,6 +144,7 @@ type Server struct {
 	DeafHanging   int // list calls in flight that ignore their context
 	Unstructured  bool // objects and lists in the dynamic client's representation (*unstructured.Unstructured / UnstructuredList)
 	EmptyListRV   bool // lists carry no resourceVersion of their own
+	errFlavor     int
 	// HeadFrame: every watch stream opens with a non-object frame (a server or
 	// proxy announcing itself): "bookmark" | "status" | "unknown-type"
 	HeadFrame string
@@ -285,6 +286,10 @@ func ListErrorOf(kind string) error {
 	case "error-nilcause", "error-nilcause-with-list":
 		// an error type with an OPTIONAL cause (juju-style): Cause() returns nil
 		return causeless{"injected: list failed (an error whose Cause() is nil)"}
+	case "error-aggregate":
+		// an aggregate (slice-typed, hence uncomparable) error, as
+		// utilerrors.NewAggregate returns it
+		return multiErr{ErrInjectedList, errors.New("injected: second cause")}
 	case "error-notrunning":
 		// the library's own sentinel coming back from the client (a ListClient
 		// layered on another kcache controller that has been closed)
@@ -297,6 +302,40 @@ func ListErrorOf(kind string) error {
 
 func ListErrorText(kind string) string { return ListErrorOf(kind).Error() }
 var ErrInjectedWatch = errors.New("injected: watch connect refused")
+
+// multiErr, fieldErrs: error types whose values cannot be compared with == (a
+// slice, a map) - comparing two of them as interfaces panics
+type multiErr []error
+
+func (m multiErr) Error() string {
+	s := "["
+	for i, e := range m {
+		if i > 0 {
+			s += ", "
+		}
+		s += e.Error()
+	}
+	return s + "]"
+}
+
+type fieldErrs map[string]string
+
+func (f fieldErrs) Error() string { return fmt.Sprintf("injected: invalid fields (%d)", len(f)) }
+
+// connectError: the value a refused Watch call returns - one flavour per
+// server, so that repeated failures repeat the type
+func (s *Server) connectError() error {
+	if s.errFlavor == 0 {
+		s.errFlavor = 1 + detsim.Choose("connect-error-flavour", 3)
+	}
+	switch s.errFlavor {
+	case 2:
+		return multiErr{ErrInjectedWatch}
+	case 3:
+		return fieldErrs{"resourceVersion": ErrInjectedWatch.Error()}
+	}
+	return ErrInjectedWatch
+}
 
 func sleepCtx(ctx context.Context, d time.Duration) bool {
 	if d <= 0 {
@@ -420,7 +459,7 @@ func (s *Server) List(ctx context.Context, opts metav1.ListOptions) (runtime.Obj
 	case "error-nilcause-with-list":
 		call.Outcome = "error"
 		return BuildTypedList(s.Kind, "", nil), ListErrorOf(script)
-	case "error-timeout", "error-canceled", "error-canceled-bare", "error-deadline-bare", "error-notrunning", "error-notrunning-wrapped", "error-nilcause":
+	case "error-timeout", "error-canceled", "error-canceled-bare", "error-deadline-bare", "error-notrunning", "error-notrunning-wrapped", "error-nilcause", "error-aggregate":
 		// a failed list is fatal whatever the error value looks like - also when
 		// it is, or wraps, a context error that is not the caller's own cancellation
 		call.Outcome = "error"
@@ -593,9 +632,9 @@ func (s *Server) Watch(ctx context.Context, opts metav1.ListOptions) (watch.Inte
 		if detsim.Choose("connect-error-typed-nil", 2) == 1 {
 			// a nil *watcher* inside the interface, next to the error: what
 			// `w, err := newWatcher(...); return w, err` hands back on failure
-			return (*conn)(nil), ErrInjectedWatch
+			return (*conn)(nil), s.connectError()
 		}
-		return nil, ErrInjectedWatch
+		return nil, s.connectError()
 	}
 	if s.F.Roll("watch-connect-timeout") {
 		// what a client with a request timeout reports: a deadline error that is
